@@ -2368,6 +2368,9 @@ class SFTPGlob:
             if filename in (b'.', b'..'):
                 continue
 
+            if b'/' in filename:
+                raise SFTPBadMessage('Invalid directory entry name')
+
             if not pattern or fnmatch(filename, pattern):
                 newpath = posixpath.join(path, filename)
                 attrs = entry.attrs
